@@ -124,9 +124,11 @@ class Registry:
     def deffn(self, name, params, body, group="", ret="bool"):
         self.deffns[name] = (params, body, group, ret)
 
-    def callback(self, name, args, ret, pure=True):
-        """user callback: pure=True -> uninterpreted deterministic function (A4); pure=False -> havoc result"""
-        self.funs[name] = dict(args=args, ret=ret, pure=pure)
+    def callback(self, name, args, ret, pure=True, post=None):
+        """user callback: pure=True -> uninterpreted deterministic function (A4); pure=False -> havoc result.
+        post: optional clause over a0, a1, ... and `result` that every returned value is assumed to satisfy
+        (e.g. 'the yielded pairs are edges of the ghost relation Edge')"""
+        self.funs[name] = dict(args=args, ret=ret, pure=pure, post=post)
 
     def record(self, name, fields, defaults=None):
         self.records[name] = fields
